@@ -67,8 +67,11 @@ theorem sie_only_inside_window (cfg : Cfg) (t0 : Int) (req : Req) (e : Entry) (k
       have hx : Header.get x.header sStatusHeader = CacheStatus.revalidated.value := by
         split at h
         · cases h; simp only [respWith]; exact applyStatus_get _ _
-        · cases h with
-          | setEntry ok h1 => cases h1; simp only [respWith]; exact applyStatus_get _ _
+        · split at h
+          · obtain ⟨t1', t2', ht, _, _, hk⟩ := storeResponse_run _ _ _ _ _ _ _ _ _ _ _ _ h
+            cases hk; simp only [respWith]; exact applyStatus_get _ _
+          · cases h with
+            | setEntry ok h1 => cases h1; simp only [respWith]; exact applyStatus_get _ _
       rw [hx] at hstale; exact hne1 hstale.symm
     · split at h
       · rename_i hc
